@@ -14,7 +14,7 @@ ELL = Sym("...")
 LIT = "lit"
 
 PELEMS = ["var", "_", "lit", 1, True, "s", ["var"], Vec(["var"]), ["var", "..."], ["var", "var"], Vec(["var", "..."])]
-UELEMS = [S("a"), S(LIT), 1, 2, True, "s", [], [S("a")], Vec([S("a")]), [1, 2], [S("a"), S(LIT)], Vec([1, 2]), Dot([S("a")], 2), Dot([1, 2], S("a"))]
+UELEMS = [S("a"), S(LIT), 1, 2, True, "s", [], [S("a")], Vec([S("a")]), [1, 2], [S("a"), S(LIT)], Vec([1, 2]), Dot([S("a")], 2), Dot([1, 2], S("a")), LIT]
 
 
 def realize(skel, counter):
@@ -99,7 +99,7 @@ def define_text(rules):
 def rand_datum(rng, depth):
     c = rng.random()
     if depth <= 0 or c < 0.5:
-        return rng.choice([S("a"), S("b"), S(LIT), 1, 2, 7, True, False, "s", "t", Char("c")])
+        return rng.choice([S("a"), S("b"), S(LIT), 1, 2, 7, True, False, "s", "t", Char("c"), LIT, LIT])      # LIT as a string: spelled like the literal identifier, but a string
     n = rng.randint(0, 3)
     items = [rand_datum(rng, depth - 1) for _ in range(n)]
     if items and rng.random() < 0.12:
@@ -195,7 +195,7 @@ def mutate_use(rng, u):
     elif k < 0.6:
         pseq[i] = Dot(list(x), rng.choice([3, S("a")])) if isinstance(x, list) and x else ([x] if not isinstance(x, Dot) else list(x.items))
     elif k < 0.8:
-        pseq[i] = rng.choice([S("a"), S(LIT), 1, 2, "s", "t", True, False])
+        pseq[i] = rng.choice([S("a"), S(LIT), 1, 2, "s", "t", True, False]) if not (isinstance(x, Sym) and x.name == LIT and rng.random() < 0.5) else LIT
     else:
         pseq[i] = rand_datum(rng, 2)
     return u
